@@ -22,6 +22,25 @@ var (
 // plain letter): the engine matches the URL AS SENT, an escape never splits or merges segments
 var escVals = []string{"a%2Fb", "a%2fb", "x%2Ey", "my%20files", "100%25", "%61", "b%2F", "%2Fc", "a%2Fb%2Fc", "%2e%2e"}
 
+// parameter NAMES: everything `{...}` is a path parameter for TryExtractPathParameter, whatever is between the
+// braces — kebab-case, dots, colons, a leading digit, upper case, non-ASCII, nothing at all
+var paramNames = []string{"order-id", "user.id", "id:int", "9x", "ID", "ünï", "", "a_b", "x-y-z", "p q"}
+
+// renaming picks, for one case, what the generator's `{p}` and `{q}` are called (70 %: left as they are)
+func renaming(r *prng.R) func(string) string {
+	if !r.Chance(30) {
+		return func(p string) string { return p }
+	}
+	a := prng.Pick(r, paramNames)
+	b := prng.Pick(r, paramNames)
+	for b == a {
+		b = prng.Pick(r, paramNames)
+	}
+	return func(p string) string {
+		return strings.ReplaceAll(strings.ReplaceAll(p, "{p}", "{"+a+"}"), "{q}", "{"+b+"}")
+	}
+}
+
 func genPattern(r *prng.R) string {
 	h := prng.Pick(r, hosts)
 	if r.Chance(5) { // parameter or wildcard inside the host
@@ -377,6 +396,7 @@ func genFilterCase(r *prng.R, id string, allOrders bool, benignBias bool, withEn
 	var pats []string
 	var shapes []shape
 	var ops []string
+	ren := renaming(r)
 	for i := 0; i < n; i++ {
 		var p string
 		if i == 0 || r.Chance(20) {
@@ -405,6 +425,7 @@ func genFilterCase(r *prng.R, id string, allOrders bool, benignBias bool, withEn
 		if r.Chance(15) && !benignBias {
 			kind = prng.Pick(r, []string{"s", "e"})
 		}
+		p = ren(p)
 		pats = append(pats, p)
 		shapes = append(shapes, s)
 		ops = append(ops, flowLine(fmt.Sprintf("f%d", i), kind, p, s))
@@ -456,12 +477,13 @@ var qmShapes = []string{"-", "GET", "POST", "GET,POST", "POST,GET", "HEAD", "GET
 func genQuotaCase(r *prng.R, id string) proto.Case {
 	n := r.Range(2, 5)
 	var urls []string
-	base := genPattern(r)
+	ren := renaming(r)
+	base := ren(genPattern(r))
 	urls = append(urls, base)
 	if r.Chance(50) {
 		// an overlapping second URL on the SAME host (the quota loader's own validation refuses patterns that
 		// cross the host/path boundary of another quota's pattern: loader glue, not the filter tree)
-		if d := derivePattern(r, base); strings.Split(d, "/")[0] == strings.Split(base, "/")[0] {
+		if d := ren(derivePattern(r, base)); strings.Split(d, "/")[0] == strings.Split(base, "/")[0] {
 			urls = append(urls, d)
 		}
 	}
@@ -505,6 +527,7 @@ func genQuotaCase(r *prng.R, id string) proto.Case {
 func genTrieCase(r *prng.R, id string) proto.Case {
 	var ops, pats []string
 	n := r.Range(1, 6)
+	ren := renaming(r)
 	for i := 0; i < n; i++ {
 		var p string
 		if i == 0 || r.Chance(25) {
@@ -515,6 +538,7 @@ func genTrieCase(r *prng.R, id string) proto.Case {
 		if r.Chance(4) {
 			p = prng.Pick(r, weirdURLs)
 		}
+		p = ren(p)
 		pats = append(pats, p)
 		ops = append(ops, fmt.Sprintf("t.ins %s %d", proto.Enc(p), i+1))
 		if r.Chance(20) {
